@@ -75,6 +75,19 @@ TreeThenBranch(s) == \E j \in DOMAIN s :
    \/ s[j].k = "tree" /\ j < Len(s) /\ s[j + 1].k \in {"alt", "rep"}
    \/ s[j].k = "alt" /\ \E x \in DOMAIN s[j].bs : TreeThenBranch(s[j].bs[x])
    \/ s[j].k = "rep" /\ TreeThenBranch(s[j].bd)
+(* an unbounded repetition whose body contains a branch token (KF10) *)
+RECURSIVE HasBranch(_), BranchInUnboundedRep(_)
+HasBranch(s) == \E j \in DOMAIN s : s[j].k \in {"alt", "rep"}
+BranchInUnboundedRep(s) == \E j \in DOMAIN s :
+   \/ s[j].k = "rep" /\ ((s[j].hi = INF /\ HasBranch(s[j].bd)) \/ BranchInUnboundedRep(s[j].bd))
+   \/ s[j].k = "alt" /\ \E x \in DOMAIN s[j].bs : BranchInUnboundedRep(s[j].bs[x])
+(* an alternation branch (of two or more) ends in a tree wildcard (KF30) *)
+RECURSIVE TreeLastInAltBranch(_)
+TreeLastInAltBranch(s) == \E j \in DOMAIN s :
+   \/ s[j].k = "alt" /\ \E x \in DOMAIN s[j].bs :
+         (Len(s[j].bs) >= 2 /\ s[j].bs[x] # <<>> /\ s[j].bs[x][Len(s[j].bs[x])].k = "tree")
+         \/ TreeLastInAltBranch(s[j].bs[x])
+   \/ s[j].k = "rep" /\ TreeLastInAltBranch(s[j].bd)
 (* some character class lists the separator (such a class matches nothing, C11) *)
 RECURSIVE ClassListsSep(_)
 ClassListsSep(s) == \E j \in DOMAIN s :
